@@ -17,7 +17,7 @@ def partitions(rng, total, maxw=12):
     ws = []
     left = total
     while left > 0:
-        w = min(left, rng.choice([1, 1, 2, 3, 4, 5, 7, 8, 9, 12, 16, 24][: (8 if maxw <= 12 else 12)]))
+        w = min(left, rng.choice([1, 1, 2, 3, 4, 5, 7, 8, 9, 12, 16, 16] if maxw <= 12 else [1, 1, 2, 3, 4, 5, 7, 8, 9, 12, 16, 24]))
         ws.append(w); left -= w
     return ws
 
